@@ -1247,32 +1247,95 @@ def repair_group_membership():
         Group.remove_members = orig
 
 
+# Necessary conditions of each defect on a minimal history.  A history is attributed to a defect only if it passes under
+# the defect's repair AND could be a witness of it at all; otherwise a different fault in the same function that the
+# repair happens to step over (e.g. a wrong sign in the objective undo of remove_reactions) would be filed under the
+# known key.
+_STOICH = ("add_metabolites", "subtract_metabolites")
+_FIXERS = ("fix_objective", "add_pfba", "add_moma", "add_room")
+
+
+def _removes_variables(o):
+    return (o["op"] in ("remove_reactions", "r_remove_from_model")
+            or (o["op"] in ("remove_metabolites", "m_remove_from_model") and o.get("destructive"))
+            or (o["op"] == "remove_genes" and o.get("remove_reactions", True))
+            or (o["op"] == "remove_cons_vars" and any(t == "var" for t, _ in o["names"])))
+
+
+def _removes_elements(o):
+    return o["op"] in ("remove_reactions", "r_remove_from_model", "remove_metabolites", "m_remove_from_model",
+                       "remove_genes")
+
+
+def _pre(case):
+    return case["model"].get("pre", [])
+
+
+def _can_nested(case):
+    return depth_of(case["prog"]) >= 2
+
+
+def _can_replace_absent(case):
+    return any(o["op"] in _STOICH and o.get("combine") is False for o in ops_of(case["prog"]))
+
+
+def _can_partial(case):
+    return any(o["op"] in _STOICH and len(o["mets"]) >= 2 and any(md == "str" for _, _, md in o["mets"])
+               for o in ops_of(case["prog"]))
+
+
+def _can_solver(case):
+    ops = ops_of(case["prog"])
+    return any(o["op"] == "solver" and o["x"] != "glpk" and (i > 0 or _pre(case)) for i, o in enumerate(ops))
+
+
+def _can_column(case):
+    ops = ops_of(case["prog"])
+    return any(_removes_variables(o) for o in ops) and (len(ops) >= 2 or bool(_pre(case)))
+
+
+def _can_objective(case):
+    ops = ops_of(case["prog"])
+    return any(_removes_variables(o) and o["op"] != "remove_cons_vars" and i < len(ops) - 1 for i, o in enumerate(ops))
+
+
+def _can_fix(case):
+    n = sum(1 for o in ops_of(case["prog"]) if o["op"] in _FIXERS) + sum(1 for o in _pre(case) if o["op"] in _FIXERS)
+    return n >= 2
+
+
+def _can_groups(case):
+    return bool(case["model"].get("args", {}).get("group")) and any(_removes_elements(o) for o in ops_of(case["prog"]))
+
+
 # order = order of nesting (outermost first) and of preference when a history is explained by several single repairs
 REPAIRS = [
-    ("nested:undo-recorded-in-enclosing-context", repair_nested_undo),
-    ("add_metabolites:combine=False:metabolite-not-in-reaction", repair_replace_absent),
-    ("add_metabolites:raises-after-partial-update", repair_validate_first),
-    ("solver-switch:earlier-undos-act-on-the-old-solver", repair_solver_switch),
-    ("remove_reactions:objective-restored-through-stale-objects", repair_remove_reactions_objective),
-    ("variable-removal:column-not-restored", repair_variable_removal),
-    ("fix_objective_as_constraint:replaced-constraint-not-recorded", repair_fix_objective),
-    ("groups:membership-not-restored", repair_group_membership),
+    ("nested:undo-recorded-in-enclosing-context", repair_nested_undo, _can_nested),
+    ("add_metabolites:combine=False:metabolite-not-in-reaction", repair_replace_absent, _can_replace_absent),
+    ("add_metabolites:raises-after-partial-update", repair_validate_first, _can_partial),
+    ("solver-switch:earlier-undos-act-on-the-old-solver", repair_solver_switch, _can_solver),
+    ("remove_reactions:objective-restored-through-stale-objects", repair_remove_reactions_objective, _can_objective),
+    ("variable-removal:column-not-restored", repair_variable_removal, _can_column),
+    ("fix_objective_as_constraint:replaced-constraint-not-recorded", repair_fix_objective, _can_fix),
+    ("groups:membership-not-restored", repair_group_membership, _can_groups),
 ]
 
 
 def execute_with(case, names):
     with contextlib.ExitStack() as stack:
-        for key, cm in REPAIRS:
+        for key, cm, _ in REPAIRS:
             if key in names:
                 stack.enter_context(cm())
         return execute(case)
 
 
 def explain(case, max_size=3):
-    """-> tuple of defect keys (smallest set of repairs under which the history passes), or None.
-    Cost for a history that no repair explains: len(REPAIRS) + 1 executions."""
+    """-> tuple of defect keys (smallest set of repairs under which the history passes, among the defects it could be
+    a witness of), or None.  Cost for a history that no repair explains: at most len(REPAIRS) + 1 executions."""
     import itertools
-    keys = [k for k, _ in REPAIRS]
+    keys = [k for k, _, can in REPAIRS if can(case)]
+    if not keys:
+        return None
 
     def passes(sub):
         r = execute_with(case, set(sub))
@@ -1280,9 +1343,9 @@ def explain(case, max_size=3):
     for k in keys:
         if passes((k,)):
             return (k,)
-    if not passes(keys):
+    if len(keys) < 2 or not passes(keys):
         return None
-    for size in range(2, max_size + 1):
+    for size in range(2, min(max_size, len(keys) - 1) + 1):
         for sub in itertools.combinations(keys, size):
             if passes(sub):
                 return sub
